@@ -249,7 +249,8 @@ theorem gen_eq_ref (ls : List (List Char)) :
            | rfl
            | grind (splits := 80)
            | (simp only [elim_eq_match]; grind (splits := 400) [Sum.elim_inl, Sum.elim_inr])
-     simp only [Gen.parseFileLines, h])
+     simp only [Gen.parseFileLines, h]
+     done)
   | (have h : ∀ (l : List (List Char)) (db : Db) (dir : Option Dir) (label : Option DbLabel) (n : Nat) (rc : Option RecKind) (state : PState),
          Gen.parseFileLines_loop0 ls l db dir label n rc state = Ref.parseFileLoop ls l db dir label (n + 1) rc state := by
        intro l
@@ -263,7 +264,8 @@ theorem gen_eq_ref (ls : List (List Char)) :
            | rfl
            | grind (splits := 80)
            | (simp only [elim_eq_match]; grind (splits := 400) [Sum.elim_inl, Sum.elim_inr])
-     simp only [Gen.parseFileLines, h, Nat.zero_add])
+     simp only [Gen.parseFileLines, h, Nat.zero_add]
+     done)
 
 /-- `_parse_file` as printed from the source = the model's line loop: for every sequence of lines, the same record store or
     the same error, line number included (C09: what a load denotes; C10: which errors can leave it; C11: nothing is kept of a
